@@ -83,6 +83,27 @@ def nested_pairs(tokens):
     return out
 
 
+def nested_pairs_idx(tokens):
+    """like nested_pairs, plus the document-order index (among all <a href> start tags) of the OUTER link, so that
+    two links with the same href but written differently (reference link + autolink to the same URL) are told apart"""
+    stack, out, n = [], [], 0     # stack entries: [href or None, children so far, index among <a href> tags]
+    for t in tokens:
+        if t[0] == "A":
+            idx = None
+            if t[1] is not None:
+                idx = n
+                n += 1
+                outer = next((e for e in reversed(stack) if e[0] is not None), None)
+                if outer is not None:
+                    out.append((outer[0], t[1], outer[1] > 0, outer[2]))
+                    outer[1] += 1
+            stack.append([t[1], 0, idx])
+        elif t[0] == "/":
+            if stack:
+                stack.pop()
+    return out
+
+
 def href_order(tokens):
     """hrefs of the <a href> start tags in document order"""
     return [t[1] for t in tokens if t[0] == "A" and t[1] is not None]
